@@ -323,8 +323,12 @@ PROPS["C13"] = dict(
                "compared with the implementation; the property (n-2 triangles on the original vertices, orientation, exact "
                "area sum, untouched neighbourhood, completeness on strictly convex resp. simple polygons) is an executable Coq "
                "predicate with exact dyadic arithmetic applied to every implementation observation; proved: atomicity of "
-               "failures and, for every polygon, the fan triangles tile the shoelace area (C13_fan_tiles_area). Ear-clipping completeness (two-ears theorem) "
-               "is searched, not proved",
+               "failures; for every polygon, the fan triangles tile the shoelace area (C13_fan_tiles_area); and, for every closed "
+               "polygon of any number of sides with pairwise distinct darts, a fan that terminates normally leaves exactly n-2 "
+               "triangles, each glued to the next along the new edge, every other image untouched (C13_fan_leaves_triangles, by "
+               "induction over the spare-dart pairs, after showing that the transactional program refines a pure function on "
+               "images: C13_fan_refines_pure; Map2/FanTopo.v). Ear clipping: per observation; its completeness (two-ears "
+               "theorem) is searched, not proved",
     technique="Coq model of the kernels + correspondence + extracted Coq specification (exact arithmetic) as per-run validator",
     families=[
         Family("kern-tri", "core2", r_kern("tri", 2500, 40000, 2), 1, [(8, "tri_spec", TRI_CLASSES)]),
